@@ -13,7 +13,7 @@ def schedule (gated : Bool) : List Step :=
 
 /-- the same two schedules at the granularity of the locks (`Model/UsableN`) -/
 def scheduleN (gated second : Bool) : List UsableN.NStep :=
-  if second then [.rBegin, .iWriteFinal, .iReturn, .rReadVerify, .oBegin, .oRegister, .oEnd, .iOpenStream, .w1,
+  if second then [.rBegin, .iWriteFinal, .iReturn, .rReadVerify, .oBegin, .oRegister 0, .oEnd, .iOpenStream, .w1,
     .rRegister, .rDone]
   else if gated then [.rBegin, .iWriteFinal, .iReturn, .iOpenStream, .w1, .w2, .rReadVerify, .rRegister, .rDone, .w3, .w4]
   else [.rBegin, .iWriteFinal, .rReadVerify, .rRegister, .rDone, .iReturn, .iOpenStream, .w1]
@@ -22,7 +22,7 @@ def handle (inp impl : Json) : CaseResult :=
   let n := jnat inp "streams"
   let s := run true init (schedule (jbool inp "gated"))
   let sN := UsableN.nrun true UsableN.ninit (scheduleN (jbool inp "gated") (jbool inp "second_handler"))
-  let accepted := s.stream == .accepted && sN.stream == .accepted
+  let accepted := s.stream == .accepted && sN.stream.isAccepted
   let m := mkObj [("connect_ok", true), ("streams_ok", if accepted then n else 0),
     ("handler_calls", if accepted then n else 0), ("identity_ok", true), ("unknown_peer_logs", 0), ("panic", false)]
   let ok := !(jbool impl "panic") &&
